@@ -420,6 +420,32 @@ def rt_cases(rng, pools, tier):
     for i, inp in enumerate(cases):
         ws = ws_maker(rng, i % 3 == 2)
         rows.append(("r%d" % i, inp.render(ws), inp.canon()))
+    # (v) the same structures with operands that reach the macro as fragments of a user macro_rules (`$e:expr`,
+    # `$t:ty`): the proc macro then sees a None-delimited group instead of the operand's own tokens. `__g!(..)` is
+    # turned into such a group by lab before parsing; the expected structure is that of the plain spelling
+    import copy
+    step = 3 if tier == "quick" else 1
+    for i, inp in enumerate(cases[::step]):
+        gi = copy.deepcopy(inp)
+        changed = False
+        for b in gi.branches:
+            if rng.random() < 0.5:
+                b.initial = "__g!(%s)" % b.initial
+                changed = True
+            for m in b.members:
+                if m.wrap or not m.operands or m.name not in OP or OP[m.name][3] not in ("expr", "type"):
+                    continue
+                for k in range(len(m.operands)):
+                    if rng.random() < 0.6:
+                        m.operands[k] = "__g!(%s)" % m.operands[k]
+                        changed = True
+        if gi.handler and rng.random() < 0.7:
+            gi.handler = (gi.handler[0], "__g!(%s)" % gi.handler[1], gi.handler[2])
+            changed = True
+        if changed:
+            for b in gi.branches:
+                b.omit_comma = False
+            rows.append(("G%d" % i, gi.render(lambda: " "), inp.canon()))
     return rows
 
 
@@ -713,6 +739,24 @@ def det_cases(rng, pools, tier, prefixes=()):
         rows.append(("d%d" % i, str(cfg), text))
         if i % 5 == 0:
             rows.append(("d%dx" % i, str(rng.randrange(8)), text + " <<< |>"))
+    # rejected inputs are invocations too: the diagnostics (all of them, in their order) must be reproducible — inputs
+    # with several different mistakes at once: two or three different options each given twice, in every arrangement
+    vals = {"custom_joiner": ["j!", "k!"], "lazy_branches": ["true", "false"], "transpose_results": ["true", "false"], "futures_crate_path": ["::f", "::g"]}
+    k = 0
+    for names in itertools.combinations(sorted(vals), 2):
+        for rep in range(3):
+            seq = [(nm, rng.choice(vals[nm])) for nm in names for _ in range(2)] + [(nm, rng.choice(vals[nm])) for nm in vals if nm not in names and rng.random() < 0.5]
+            rng.shuffle(seq)
+            rows.append(("dm%d" % k, str(2 | rng.randrange(2) | 4 * rng.randrange(2)), "".join("%s(%s) " % kv for kv in seq) + "a |> f, b"))
+            k += 1
+    for rep in range(8):
+        seq = [(nm, rng.choice(vals[nm])) for nm in vals for _ in range(rng.choice([2, 2, 3]))]
+        rng.shuffle(seq)
+        rows.append(("dm%d" % k, str(2 | rng.randrange(2)), "".join("%s(%s) " % kv for kv in seq) + "a |> f"))
+        k += 1
+    # ... and two handlers plus a duplicated option, an empty branch plus an unbalanced `<<<`
+    rows.append(("dm%d" % k, "1", "lazy_branches(true) lazy_branches(true) a |> f, map => g, map => h"))
+    rows.append(("dm%d" % (k + 1), "0", "a |> f <<< , , b <<<"))
     return rows
 
 
